@@ -426,9 +426,10 @@ func NewCallTree() *CallTree {
 // add a new call to the current call tree
 func (c *CallTree) add(from common.Address, to *common.Address, data []byte, value, gas *uint256.Int) {
 	newCall := &Call{
-		From:  from,
-		To:    to,
-		Data:  data,
+		From: from,
+		To:   to,
+		// the CALL opcode passes a view of the caller's live memory: keep the bytes as they are now
+		Data:  common.CopyBytes(data),
 		Value: value,
 		Gas:   gas,
 
